@@ -438,11 +438,16 @@ func (c *Ctx) CLIRunPassThrough(ob *core.Obligation) {
 	}
 	c.Touch(fn)
 	var parse, runp *ssa.Call
+	var parseVia *ssa.Call // the call, in fn, of the helper that parses (nil: parsed in fn itself)
+	isParse := func(o types.Object) bool {
+		rel, _ := core.Rel(o.Pkg())
+		return o.Name() == "Parse" && rel == "internal/parser"
+	}
 	for _, ci := range core.Calls(fn) {
 		if call, ok := ci.(*ssa.Call); ok {
 			if o := core.CalleeObj(&call.Call); o != nil {
 				rel, _ := core.Rel(o.Pkg())
-				if o.Name() == "Parse" && rel == "internal/parser" {
+				if isParse(o) {
 					parse = call
 				}
 				if o.Name() == "RunProgram" && rel == "internal/interpreter" {
@@ -451,21 +456,50 @@ func (c *Ctx) CLIRunPassThrough(ob *core.Obligation) {
 			}
 		}
 	}
+	if parse == nil {
+		for _, site := range c.callsThroughHelpers(fn, isParse) {
+			if site.via != nil {
+				if pcall, ok := site.call.(*ssa.Call); ok {
+					parse, parseVia = pcall, site.via
+				}
+			}
+		}
+	}
 	if parse == nil || runp == nil {
 		ob.Fail("cli-run:calls", c.P.Pos(fn.Pos()), "the run command does not parse and execute through the library entry points")
 		return
 	}
+	// the script that is parsed, seen from fn
+	script := parse.Call.Args[0]
+	if parseVia != nil {
+		script = helperSite{call: parse, via: parseVia, helper: parse.Parent()}.actual(script)
+	}
+	// the parse result, seen from fn: the call itself, or the call of the helper that returns it
+	parseRes := ssa.Value(parse)
+	if parseVia != nil {
+		parseRes = parseVia
+		good := false
+		for _, ret := range core.Returns(parse.Parent()) {
+			if len(ret.Results) > 0 && rootOf(ret.Results[0]) == ssa.Value(parse) && fieldPath(ret.Results[0]) == "" {
+				good = true
+			}
+		}
+		if !good {
+			ob.Fail("cli-run:inputs", c.P.Pos(parseVia.Pos()), "the helper that parses the script does not hand back the parse result")
+			return
+		}
+	}
 	// inputs: one options value
-	opt := rootAlloc(parse.Call.Args[0])
+	optRoot := rootOf(script)
 	keyIn := "cli-run:inputs"
-	okIn := opt != nil && fieldPath(parse.Call.Args[0]) == "Script"
+	okIn := optRoot != nil && fieldPath(script) == "Script"
 	why := "the script parsed is not the Script field of the decoded input"
 	if okIn {
 		// program = Value of that parse result
-		if rootAlloc(runp.Call.Args[1]) == nil || !strings.HasSuffix(fieldPath(runp.Call.Args[1]), "Value") || !storedFrom(rootAlloc(runp.Call.Args[1]), parse) {
+		if rootOf(runp.Call.Args[1]) != parseRes || !strings.HasSuffix(fieldPath(runp.Call.Args[1]), "Value") {
 			okIn, why = false, "the program executed is not the value of the parse result"
 		}
-		if okIn && (rootAlloc(runp.Call.Args[2]) != opt || fieldPath(runp.Call.Args[2]) != "Variables") {
+		if okIn && (rootOf(runp.Call.Args[2]) != optRoot || fieldPath(runp.Call.Args[2]) != "Variables") {
 			okIn, why = false, "the variables passed to the library are not the Variables of the decoded input"
 		}
 	}
@@ -474,12 +508,25 @@ func (c *Ctx) CLIRunPassThrough(ob *core.Obligation) {
 	} else {
 		ob.Fail(keyIn, c.P.Pos(runp.Pos()), why)
 	}
-	// every input channel fills that one value
+	// every input channel fills that one value: in fn, or in the helper that builds and returns it
 	keyCh := "cli-run:channels"
 	nCh := 0
-	for _, ci := range core.Calls(fn) {
+	chFn, chRoot := fn, optRoot
+	if rc, ok := optRoot.(*ssa.Call); ok {
+		if sc := rc.Call.StaticCallee(); sc != nil && len(sc.Blocks) > 0 && relOfFn(sc) == relOfFn(fn) {
+			for _, ret := range core.Returns(sc) {
+				if len(ret.Results) > 0 {
+					if al := rootAlloc(ret.Results[0]); al != nil {
+						chFn, chRoot = sc, al
+						c.Touch(sc)
+					}
+				}
+			}
+		}
+	}
+	for _, ci := range core.Calls(chFn) {
 		if call, ok := ci.(*ssa.Call); ok {
-			if sc := call.Call.StaticCallee(); sc != nil && strings.HasPrefix(sc.Name(), "from") && len(call.Call.Args) > 0 && call.Call.Args[0] == opt {
+			if sc := call.Call.StaticCallee(); sc != nil && len(call.Call.Args) > 0 && rootOf(call.Call.Args[0]) == chRoot && relOfFn(sc) == relOfFn(fn) && sc.Signature.Recv() != nil {
 				nCh++
 			}
 		}
@@ -553,14 +600,18 @@ func (c *Ctx) CLIRunPassThrough(ob *core.Obligation) {
 	// parse errors exit too
 	keyPE := "cli-run:parse-error-exit"
 	okPE := false
-	for _, b := range fn.Blocks {
+	peFn := fn
+	if parseVia != nil {
+		peFn = parse.Parent() // the helper must exit before it returns the result
+	}
+	for _, b := range peFn.Blocks {
 		iff, ok := b.Instrs[len(b.Instrs)-1].(*ssa.If)
 		if !ok {
 			continue
 		}
 		if bo, ok := iff.Cond.(*ssa.BinOp); ok && (bo.Op == token.NEQ || bo.Op == token.GTR) {
 			if lc, ok := core.Strip(bo.X).(*ssa.Call); ok && isLenCall(lc) && strings.HasSuffix(fieldPath(lc.Call.Args[0]), "Errors") {
-				if mustExitFrom(fn, b.Succs[0]) && !b.Succs[0].Dominates(runp.Block()) {
+				if mustExitFrom(peFn, b.Succs[0]) && (peFn != fn || !b.Succs[0].Dominates(runp.Block())) {
 					okPE = true
 				}
 			}
